@@ -55,7 +55,7 @@ type mCall struct {
 }
 
 func c17worker(arg string) {
-	c := &c20ctx{out: newWorkerOut(), st: &wStats{Shard: arg, MinBound: -1, Extra: map[string]int{}}, states: map[string]struct{}{}}
+	c := &c20ctx{check: "C17", out: newWorkerOut(), st: &wStats{Shard: arg, MinBound: -1, Extra: map[string]int{}}, states: map[string]struct{}{}}
 	c.deadline = time.Now().Add(3 * time.Minute)
 	c.budget = 150000
 	if thorough {
